@@ -317,7 +317,14 @@ def check(case):
             out.violate('acknowledged_lost/suggest',
                         'suggest returned, process died, state differs')
         # (3) integrity
-        for clause, detail in _raw_integrity(s4):
+        try:
+          raw_problems = _raw_integrity(s4)
+        except Exception as e:  # pylint: disable=broad-except
+          out.violate('unreadable_after_restart/%s/%s' % (
+              vkind, type(e).__name__), 'crash at %s: raw tables unreadable: '
+                      '%s' % (where, str(e)[:300]))
+          continue
+        for clause, detail in raw_problems:
           out.violate('integrity/%s/%s' % (clause, vkind),
                       'crash at %s of %r: %s' % (where, victim, detail))
         if not isinstance(got.get('o0'), str):
@@ -338,7 +345,12 @@ def check(case):
         # (4) continuation on the victim's study
         if sname:
           self_worker = victim[3] if vkind == 'suggest' else 'w1'
-          _continuation(out, s4, sname, vkind, where, self_worker)
+          try:
+            _continuation(out, s4, sname, vkind, where, self_worker)
+          except Exception as e:  # pylint: disable=broad-except
+            out.violate('continuation/raises/%s/%s' % (
+                type(e).__name__, vkind), 'crash at %s: %s' % (
+                    where, str(e)[:300]))
       finally:
         svc.close_servicer(s4)
         try:
@@ -417,6 +429,115 @@ def _continuation(out, s, sname, vkind, where, self_worker):
     out.violate('continuation/duplicate_ids/%s' % vkind, str(ids))
 
 
+
+# ---------------------------------------------------------------------------
+# large transactions: a crash inside a transaction that is bigger than
+# SQLite's page cache (pages already spilled to the file before the commit)
+# ---------------------------------------------------------------------------
+def enum_big(tier):
+  sizes = [(260, 12000)] if tier == 'quick' else [
+      (260, 12000), (1200, 3000), (60, 70000)]
+  return [{'n_trials': n, 'md_bytes': b, 'victim': ['delete_study', 'o0', 's0']}
+          for n, b in sizes]
+
+
+def check_big(case):
+  """Study with several MB of trials, DeleteStudy as victim, every crash point."""
+  from harness import svc, histories
+  from harness import service_model as sm
+  out = core.Out()
+  tmp = svc.TmpFiles()
+  victim = case['victim']
+  try:
+    base = tmp.path('base.db')
+    s = _open(base)
+    histories.exec_real(s, ['create_study', 'o0', 's0'], scribble=False)
+    histories.exec_real(s, ['create_study', 'o0', 's1'], scribble=False)
+    blob = 'x' * case['md_bytes']
+    for i in range(1, case['n_trials'] + 1):
+      t = svc.params_to_trial_proto(svc.det_params(i))
+      t.name = sm.tname('o0', 's0', i)
+      t.id = str(i)
+      t.state = sm.TS.ACTIVE
+      t.client_id = 'w1'
+      t.metadata.add(ns='', key='blob', value=blob)
+      s.datastore.create_trial(t)
+    histories.exec_real(s, ['suggest', 'o0', 's1', 'w1', 2], scribble=False)
+    pre = json.loads(json.dumps(_snap(s)))
+    svc.close_servicer(s)
+    size = os.path.getsize(base)
+    out.cls('db_mb_%d' % (size >> 20))
+
+    dry = tmp.path('dry.db')
+    shutil.copy(base, dry)
+
+    def dry_run():
+      c = {'n': 0, 'armed': False, 'log': [], 'over': 0}
+      s2 = _open(dry, c)
+      c['armed'] = True
+      histories.exec_real(s2, victim, scribble=False)
+      c['armed'] = False
+      return json.dumps({'n': c['n'], 'log': c['log'], 'post': _snap(s2)})
+    code, data = _child(dry_run)
+    if code != 0 or data.startswith(b'CHILD-ERROR'):
+      raise RuntimeError('dry run failed: %r' % data[:2000])
+    info = json.loads(data)
+    post = json.loads(json.dumps(info['post']))
+    nt_keys = set()
+    chash = core.case_hash(case)
+    for k in range(1, info['n'] + 1):
+      path = tmp.path('k%d.db' % k)
+      shutil.copy(base, path)
+
+      def crash_run(k=k, path=path):
+        c = {'n': 0, 'armed': False, 'log': [], 'over': 0}
+        s3 = _open(path, c, crash_at=k)
+        c['armed'] = True
+        histories.exec_real(s3, victim, scribble=False)
+        return None
+      code, data = _child(crash_run)
+      if code != 137:
+        raise RuntimeError('crash child did not crash at %s: %s %r' % (
+            k, code, data[:300]))
+      out.count('crash_points_run')
+      nt_keys.add(core.case_hash([chash, k]))
+      where = '%d:%s' % (k, info['log'][k - 1])
+      try:
+        s4 = _open(path)
+        got = json.loads(json.dumps(_snap(s4)))
+      except Exception as e:  # pylint: disable=broad-except
+        out.violate('unreadable_after_restart/big_transaction/%s' % (
+            type(e).__name__), 'crash at %s of %r on a %d MB file: %r' % (
+                where, victim, size >> 20, str(e)[:300]))
+        continue
+      try:
+        if got != pre and got != post:
+          out.violate('torn/big_transaction', 'crash at %s: neither pre nor '
+                      'post state' % where)
+        for clause, detail in _raw_integrity(s4):
+          out.violate('integrity/%s/big_transaction' % clause,
+                      'crash at %s: %s' % (where, detail))
+        _continuation(out, s4, sm.sname('o0', 's1'), 'big_transaction',
+                      where, 'w1')
+      except Exception as e:  # pylint: disable=broad-except
+        out.violate('unreadable_after_restart/big_transaction/%s' % (
+            type(e).__name__), 'crash at %s of %r on a %d MB file: stored '
+                    'records cannot be read / used after restart: %s' % (
+                        where, victim, size >> 20, str(e)[:300]))
+      finally:
+        svc.close_servicer(s4)
+        try:
+          os.remove(path)
+        except OSError:
+          pass
+    out.nt_keys = nt_keys
+    out.nontrivial = True
+    out.cls('big_transaction')
+  finally:
+    tmp.close()
+  return out
+
+
 def families(tier):
   return [
       core.Family('crash', check, strategy=strategy,
@@ -427,4 +548,7 @@ def families(tier):
                       'multi_commit_victim', 'continuation_checked',
                       'victim_suggest', 'victim_complete', 'victim_update_md',
                       'victim_delete_study', 'victim_create_trial')),
+      core.Family('crash_big', check_big, enumerate=enum_big,
+                  shards={'quick': 1, 'thorough': 3},
+                  required_classes=('big_transaction',)),
   ]
